@@ -161,15 +161,19 @@ class Check:
         os.makedirs(d, exist_ok=True)
         exe = os.path.join(d, f"{name}-{key}")
         if os.path.exists(exe):
+            try:
+                os.utime(exe, None)   # in use: keep it young, so that no concurrent run evicts it
+            except OSError:
+                pass
             return exe
         # keep the cache small, but never delete a binary another concurrent run may be using:
-        # only binaries of the same harness older than 2 hours go
+        # only binaries of the same harness not used for 6 hours go
         now = time.time()
         for f in os.listdir(d):
             if f.startswith(name + "-"):
                 fp = os.path.join(d, f)
                 try:
-                    if now - os.path.getmtime(fp) > 7200:
+                    if now - os.path.getmtime(fp) > 6 * 3600:
                         os.remove(fp)
                 except OSError:
                     pass
